@@ -259,7 +259,7 @@ func specSizeOK(size int, lower int, upper int) bool {
 //@   ensures true
 
 //@ func Parse
-//@   property C06 C19 C11 C04 C08
+//@   property C06 C19 C11 C04 C08 C15 C05
 //@   owns sml.parser, sml.lexer, sml.token, sml.parseError, map[string]bool
 //@   ensures len(errors) > 0 ==> len(messages) == 0
 //@   ensures fresh(errors) && fresh(warnings)
@@ -268,6 +268,8 @@ func specSizeOK(size int, lower int, upper int) bool {
 //@   rac_ensures racPrintedFormsReparse()
 //@   rac_ensures racLoneEllipsisKeepsName()
 //@   rac_ensures racLayoutInvariant()
+//@   rac_ensures racDeclaredSizesEnforced()
+//@   rac_ensures racLiteralsDenoteValues()
 //@   rac_ensures racConcatIndependent()
 //@   loop 1
 //@     invariant fresh(p) && fresh(p.messages)
@@ -797,4 +799,144 @@ func racConcatIndependent() bool {
 		fmt.Println("GOVC-COUNT racConcatIndependent concatenations compared:", n)
 	})
 	return racConcatOK
+}
+
+// racDeclaredSizesEnforced (C15, bounded): for every item type, every form of size declaration with bounds 0..3 (including
+// inverted ranges, which nothing satisfies) and every element count 0..4, the text parses without errors iff the count lies
+// within the declared bounds.
+var (
+	racSizesOnce sync.Once
+	racSizesOK   bool
+)
+
+func racDeclaredSizesEnforced() bool {
+	racSizesOnce.Do(func() {
+		racSizesOK = true
+		elem := map[string]string{"L": "<U1 1>", "B": "0x01", "BOOLEAN": "T", "F4": "1.5", "F8": "-2", "I1": "1", "I2": "-1", "I4": "7", "I8": "0", "U1": "1", "U2": "2", "U4": "3", "U8": "4"}
+		types := []string{"L", "B", "BOOLEAN", "A", "F4", "F8", "I1", "I2", "I4", "I8", "U1", "U2", "U4", "U8"}
+		n := 0
+		for _, typ := range types {
+			for lo := -1; lo <= 3; lo++ { // -1: bound absent
+				for hi := -1; hi <= 3; hi++ {
+					var decls []string
+					var lower, upper int
+					switch {
+					case lo == -1 && hi == -1:
+						continue
+					case lo == -1:
+						decls, lower, upper = []string{fmt.Sprintf("[..%d]", hi), fmt.Sprintf("[ .. %d ]", hi)}, 0, hi
+					case hi == -1:
+						decls, lower, upper = []string{fmt.Sprintf("[%d..]", lo)}, lo, -1
+					default:
+						decls, lower, upper = []string{fmt.Sprintf("[%d..%d]", lo, hi)}, lo, hi
+						if lo == hi {
+							decls = append(decls, fmt.Sprintf("[%d]", lo))
+						}
+					}
+					for _, decl := range decls {
+						for count := 0; count <= 4; count++ {
+							var body string
+							if typ == "A" {
+								if count > 0 {
+									body = " \"" + strings.Repeat("x", count) + "\""
+								}
+							} else {
+								body = strings.Repeat(" "+elem[typ], count)
+							}
+							text := "S1F1 H->E m\n<" + typ + decl + body + ">\n."
+							ok := lower <= count && (upper == -1 || count <= upper)
+							r := racParse(text)
+							n++
+							if (len(r.errs) == 0) != ok {
+								racSizesOK = false
+								fmt.Printf("GOVC-NOTE racDeclaredSizesEnforced: %q has %d elements, declared bounds [%d, %d]: errors %v\n", text, count, lower, upper, r.errs)
+								return
+							}
+						}
+					}
+				}
+			}
+		}
+		fmt.Println("GOVC-COUNT racDeclaredSizesEnforced texts parsed:", n)
+	})
+	return racSizesOK
+}
+
+// racLiteralsDenoteValues (C05, bounded): literals of every form and type parse to exactly the item built directly from the
+// values they denote (values written out here independently of the parser), compared by printed form and by encoded bytes.
+var (
+	racLiteralsOnce sync.Once
+	racLiteralsOK   bool
+)
+
+func racLiteralsDenoteValues() bool {
+	racLiteralsOnce.Do(func() {
+		racLiteralsOK = true
+		defer func() {
+			if r := recover(); r != nil {
+				racLiteralsOK = false
+				fmt.Println("GOVC-NOTE racLiteralsDenoteValues: panic", r)
+			}
+		}()
+		f32 := func(x float64) float32 { return float32(x) }
+		cases := []struct {
+			text string
+			want ast.ItemNode
+		}{
+			{`<A "100%" 0x41 "%d wafers" 37 "C:/x%s" 0 127>`, ast.NewASCIINode("100%A%d wafers%C:/x%s\x00\x7f")},
+			{`<A "a" 0b1000010 0o103 "d">`, ast.NewASCIINode("aBCd")},
+			{`<A>`, ast.NewASCIINode("")},
+			{`<B 0b101 0xFF 017 0o17 255 0 0X0a>`, ast.NewBinaryNode(5, 255, 15, 15, 255, 0, 10)},
+			{`<BOOLEAN T F t f>`, ast.NewBooleanNode(true, false, true, false)},
+			{`<I1 -128 0x7f -0b1 +5>`, ast.NewIntNode(1, -128, 127, -1, 5)},
+			{`<I2 -32768 32767 0x7FFF>`, ast.NewIntNode(2, -32768, 32767, 32767)},
+			{`<I4 -2147483648 2147483647>`, ast.NewIntNode(4, math.MinInt32, math.MaxInt32)},
+			{`<I8 -9223372036854775808 9223372036854775807 -0x8000000000000000>`, ast.NewIntNode(8, int64(math.MinInt64), int64(math.MaxInt64), int64(math.MinInt64))},
+			{`<U1 0 255 0xff>`, ast.NewUintNode(1, 0, 255, 255)},
+			{`<U2 65535 0b1111111111111111>`, ast.NewUintNode(2, 65535, 65535)},
+			{`<U4 4294967295>`, ast.NewUintNode(4, uint32(math.MaxUint32))},
+			{`<U8 18446744073709551615 0xFFFFFFFFFFFFFFFF 9223372036854775808>`, ast.NewUintNode(8, uint64(math.MaxUint64), uint64(math.MaxUint64), uint64(1)<<63)},
+			{`<F4 0.1 1e-7 3.4028235e38 -2.5 1E2 .5 16777217>`, ast.NewFloatNode(4, f32(0.1), f32(1e-7), f32(math.MaxFloat32), f32(-2.5), f32(100), f32(0.5), f32(16777216))},
+			{`<F8 0.1 1e-60 1.7976931348623157e308 -0.0 5e-324 123456789.125>`, ast.NewFloatNode(8, 0.1, 1e-60, math.MaxFloat64, math.Copysign(0, -1), 5e-324, 123456789.125)},
+			{`<L <F4 0.1 1e-60> <F8 0.1 1e-60> <F4 0.1>>`, ast.NewListNode(ast.NewFloatNode(4, f32(0.1), f32(0)), ast.NewFloatNode(8, 0.1, 1e-60), ast.NewFloatNode(4, f32(0.1)))},
+			{`<L <A "%"> <A "line1" 0x0D 0x0A> <A "ab" 0x0A> <A "line1" 13 10>>`, ast.NewListNode(ast.NewASCIINode("%"), ast.NewASCIINode("line1\r\n"), ast.NewASCIINode("ab\n"), ast.NewASCIINode("line1\r\n"))},
+			{`<L <U1 0o78>>`, nil},
+			{`<L <B 0b12>>`, nil},
+			{`<U1 256>`, nil},
+			{`<I1 128>`, nil},
+			{`<I8 9223372036854775808>`, nil},
+			{`<U8 18446744073709551616>`, nil},
+			{`<U1 -1>`, nil},
+			{`<F4 3.5e38>`, nil},
+			{`<B 1.5>`, nil},
+			{`<A 128>`, nil},
+			{`<A "é">`, nil},
+		}
+		sb := []byte{9, 8, 7, 6}
+		for _, c := range cases {
+			ms, errs, _ := Parse("S1F1 W H->E lit\n" + c.text + "\n.")
+			if c.want == nil {
+				if len(errs) == 0 {
+					racLiteralsOK = false
+					fmt.Printf("GOVC-NOTE racLiteralsDenoteValues: %s is accepted although a literal in it has no denotation in its type\n", c.text)
+					return
+				}
+				continue
+			}
+			want := ast.NewHSMSDataMessage("lit", 1, 1, 1, "H->E", c.want, 3, sb)
+			if len(errs) != 0 || len(ms) != 1 {
+				racLiteralsOK = false
+				fmt.Printf("GOVC-NOTE racLiteralsDenoteValues: %s gives %d messages, errors %v\n", c.text, len(ms), errs)
+				return
+			}
+			got := ms[0].SetSessionIDAndSystemBytes(3, sb)
+			if got.String() != want.String() || !bytes.Equal(got.ToBytes(), want.ToBytes()) {
+				racLiteralsOK = false
+				fmt.Printf("GOVC-NOTE racLiteralsDenoteValues: %s parses to %q, the values it denotes give %q\n", c.text, got.String(), want.String())
+				return
+			}
+		}
+		fmt.Println("GOVC-COUNT racLiteralsDenoteValues literal items compared:", len(cases))
+	})
+	return racLiteralsOK
 }
